@@ -646,6 +646,8 @@ def inlined(mod, qual, keep=(), tail=False):
         if inl.inlined:
             propagate_param_copies(f2)
         changed = normalise(f2)
+        if changed:
+            propagate_param_copies(f2)      # `d__k = param` left by a scalarised container literal: the parameter itself
         if inl.inlined or changed:
             renumber(f2)
             res = (f2, inl.inlined)
